@@ -31,7 +31,10 @@ import (
 	preconfpb "github.com/primevprotocol/mev-commit/gen/go/preconfirmation/v1"
 	providerapiv1 "github.com/primevprotocol/mev-commit/gen/go/providerapi/v1"
 	streammsgv1 "github.com/primevprotocol/mev-commit/gen/go/streammsg/v1"
+	preconfcontract "github.com/primevprotocol/mev-commit/pkg/contracts/preconf"
 	"github.com/primevprotocol/mev-commit/pkg/discovery"
+	"github.com/primevprotocol/mev-commit/pkg/evmclient"
+	mockevmclient "github.com/primevprotocol/mev-commit/pkg/evmclient/mock"
 	mockkeysigner "github.com/primevprotocol/mev-commit/pkg/keysigner/mock"
 	"github.com/primevprotocol/mev-commit/pkg/p2p"
 	"github.com/primevprotocol/mev-commit/pkg/p2p/libp2p/internal/handshake"
@@ -156,7 +159,11 @@ func c06Run(t *testing.T, in c06In, w *c04World) (obs c06Obs) {
 		}
 		svc.peers.addPeer(ls.conn, &p2p.Peer{EthAddress: crypto.PubkeyToAddress(w.remoteKey.PublicKey), Type: role})
 		sgn := preconfsigner.NewSigner(ks)
-		pc := preconfirmation.New(c06Topo{}, nil, sgn, c06Allow{}, c06Proc{}, c06DA{}, util.NewTestLogger(io.Discard))
+		// the real commitment-store wrapper (over a chain client that accepts everything): what it
+		// does with the amount it is handed is part of the path a hostile bid can reach
+		da := preconfcontract.New(common.HexToAddress("0xda"), mockevmclient.New(mockevmclient.WithSendFunc(
+			func(context.Context, *evmclient.TxRequest) (common.Hash, error) { return common.HexToHash("0x51"), nil })), util.NewTestLogger(io.Discard))
+		pc := preconfirmation.New(c06Topo{}, nil, sgn, c06Allow{}, c06Proc{}, da, util.NewTestLogger(io.Discard))
 		svc.AddStreamHandlers(pc.Streams()...)
 		disc := discovery.New(c06Topo{}, c06Streamer{svc: svc}, util.NewTestLogger(io.Discard))
 		defer disc.Close()
@@ -290,6 +297,14 @@ func TestVerifC06(t *testing.T) {
 		if err == nil {
 			rb.BidAmount = a
 			emit(c06In{Tag: "bid-amount", Entry: "preconf-provider", Wire: hx(append(c06Header(), c06Msg(rb)...))})
+		}
+	}
+	// correctly signed bids whose amount is spelled unusually (leading zeros, digits 8/9 after a
+	// zero, signs, huge values): accepted ones travel all the way to the commitment store
+	for _, a := range []string{"08", "0900", "019", "010", "00", "0", "000000000000000000000000000000000000001", "+7", "18446744073709551615",
+		"18446744073709551616", "340282366920938463463374607431768211456", "115792089237316195423570985008687907853269984665640564039457584007913129639935"} {
+		if sb, err := bidder.ConstructSignedBid(hex.EncodeToString(rng.bytes(32)), a, 10, 1, 2); err == nil {
+			emit(c06In{Tag: "bid-amount-signed", Entry: "preconf-provider", Wire: hx(append(c06Header(), c06Msg(sb)...))})
 		}
 	}
 	for _, n := range []int64{0, -1, -1 << 63, 1<<63 - 1} {
